@@ -134,7 +134,7 @@ def oracle(case, items):
     STATS["demanded_success"] += 1
     if not all_finite(a.x): return "x is not finite on a well-posed system: %r" % (a.x[:4],)
     if not a.ok:
-        return "no convergence on a well-posed system (kappa %.3g, n=%d, tol %.0e): Err(%.3e) after %d iterations" % (kap, n, tol, a.err, maxit)
+        return "no convergence on a well-posed system (kappa %.3g, n=%d, tol %.0e): Err(%.3e) (budget %d)" % (kap, n, tol, a.err, maxit)
     # positive-diagonal SDD and SPD: the calibrated 3n+10; mixed-sign diagonals (indefinite symmetric part): only
     # "proportional to the dimension" = within the budget 20n+100 (near-breakdowns slow BiCG/QMR down to ~9n there)
     bound = ITER_A * n + ITER_B if s.info.get("fam") != "sdd-mixed" else maxit
@@ -157,7 +157,7 @@ def oracle(case, items):
     return None
 
 def finding_key(case, desc, decoded):
-    if decoded is None or not ("no convergence" in desc or "not finite" in desc):
+    if decoded is None or not ("no convergence" in desc or "not finite" in desc or "needs more than" in desc):
         return None
     return breakdown_key(case, decoded, PID)
 
